@@ -65,6 +65,34 @@ def curve_family (rng):
     return dict (f = f, geo = geo, fam = 'curve-' + c ['k'], media = None, src = [], loads = [])
 # end def curve_family
 
+def ground_curve_family (rng):
+    """ an arc standing on the ground plane (half circle on both feet, or a quarter circle with a wire on its
+        top), turned about the vertical axis and shifted horizontally: out of the plane y = 0 it is defined in
+    """
+    f, lam, segl, rad = gen.pick_scale (rng, 1 / 60., 1 / 22.)
+    n   = int (rng.integers (5, 14))
+    geo = []
+    if rng.random () < 0.6:
+        R = n * segl / np.pi
+        a = (0.0, 180.0) if rng.random () < 0.5 else (180.0, 0.0)
+        geo.append (dict (k = 'a', n = n, radius = R, a1 = a [0], a2 = a [1], r = rad, tag = None))
+    else:
+        R = n * segl / (np.pi / 2)
+        a = [(0.0, 90.0), (90.0, 0.0), (180.0, 90.0), (90.0, 180.0)][int (rng.integers (0, 4))]
+        geo.append (dict (k = 'a', n = n, radius = R, a1 = a [0], a2 = a [1], r = rad, tag = None))
+        nn  = int (rng.integers (2, 7))
+        top = np.array ([0.0, 0.0, R])
+        far = top + np.array ([0.0, 1.0, 0.0]) * nn * segl
+        geo.append (gen.wire (nn, top, far, rad) if rng.random () < 0.5 else gen.wire (nn, far, top, rad))
+    spec = dict (f = f, geo = geo, fam = 'gcurve', media = [[0, 0, 0]], src = [], loads = [])
+    ang  = float (np.round (rng.uniform (-180, 180), 2))
+    sh   = [float (x) for x in rng.uniform (-1, 1, 2) * lam * float (rng.choice ([0.3, 2]))] + [0.0]
+    u    = rng.random ()
+    spec ['tr'] = [['rotate', 1.0, [0.0, 0.0, ang], None]] if u < 0.4 else ([['translate', 1.0, sh, None]] if u < 0.6 else
+                  [['rotate', 1.0, [0.0, 0.0, ang], None], ['translate', 2.0, sh, None]])
+    return spec
+# end def ground_curve_family
+
 def make (c):
     if 'corpus' in c:
         spec = corpus.make (c, 2)
@@ -73,7 +101,7 @@ def make (c):
     rng = np.random.default_rng ([c ['seed'], 2, c ['i']])
     u   = rng.random ()
     if u < 0.15:
-        spec = curve_family (rng)
+        spec = curve_family (rng) if rng.random () < 0.6 else ground_curve_family (rng)
     elif u < 0.6:
         spec = gen.fam_free (rng, equal_junction = bool (rng.random () < 0.3), seg_hi = 1 / 18.)
         spec.pop ('feeds')
